@@ -236,6 +236,10 @@ fn run_mid(c: usize, r: usize, ctx: &mut Ctx) {
     }
     acts.push(Act::new("cpw", &[0, 0, c / 2, r / 2 + 1, c - c / 2, r - r / 2 - 1]));
     acts.push(Act::new("wr", &[c - 1, r - 1]));
+    acts.push(Act::new("cfs", &[c, r]));
+    acts.push(Act::new("cft", &[c, r]));
+    acts.push(Act::new("clf", &[c, r]));
+    acts.push(Act::new("clf", &[r, c]));
     acts.push(Act::new("rrx", &[r / 2, 2]));
     acts.push(Act::new("rcx", &[c / 2, 3]));
     for act in acts {
@@ -249,6 +253,12 @@ fn run_mid(c: usize, r: usize, ctx: &mut Ctx) {
                     cs.outcome("accepted");
                     cs.nontrivial((c, r, &act.op, &act.a, cap));
                     let mut t: TooDee<u32> = materialize(c, r, &labels, cap == 's');
+                    let mut act = act.clone();
+                    if cap == 's' {
+                        // room for a whole line and more (the standard spare capacity is smaller than these lines)
+                        t.reserve(c.max(r) + 24);
+                        act.cap = '-';
+                    }
                     let mut model: Model<u32> = Model::from_flat(c, r, &labels);
                     let panicked = apply(&mut t, &mut model, &act, cs);
                     if panicked {
